@@ -23,6 +23,7 @@ SmallAtoms == { VNull, VUndef, VNum("1"), VStr("a"), VBool(TRUE), VObj(<<>>), VA
 PrimCand(p) ==
   CASE p = "string"  -> {VStr("a"), VStr(""), VNum("1"), VNull}
     [] p = "number"  -> {VNum("1"), VNum("0.5"), VNum("NaN"), VStr("1"), VNull}
+    [] p = "numberkey" -> {VNum("1"), VStr("1"), VNull}
     [] p = "boolean" -> {VBool(TRUE), VBool(FALSE), VNum("0"), VStr("true"), VUndef}
     [] p \in {"null", "undefined", "void"} -> {VNull, VUndef, VNum("0"), VStr(""), VBool(FALSE)}
     [] p \in {"any", "unknown"} -> {VNum("1"), VNull, VObj(<<>>)}
